@@ -75,8 +75,8 @@ struct V<MoveOnly> {
     static constexpr const char *name = "moveonly";
 };
 
-enum Start { DETACH = 0, DETACH_AWAITED, START, START_PROMISE, START_CLAIMED, COAWAIT, JOIN, FUTURE_CTOR, FN_RETURNS_FUTURE, FUTURE_CORO, CALL_OP, MOVED_STARTED, NEVER_STARTED, NSTART };
-static const char *start_names[] = {"detach", "detach_awaited", "start", "start(promise)", "start(claimed)", "co_await", "join", "future(async)", "fn->future", "future-coroutine", "operator()", "moved-then-started", "never-started"};
+enum Start { DETACH = 0, DETACH_AWAITED, START, START_PROMISE, START_CLAIMED, COAWAIT, JOIN, FUTURE_CTOR, FN_RETURNS_FUTURE, FUTURE_CORO, CALL_OP, MOVED_STARTED, NEVER_STARTED, START_PROMISE_SELF, JOIN_IN_CORO, START_IN_CORO, NSTART };
+static const char *start_names[] = {"detach", "detach_awaited", "start", "start(promise)", "start(claimed)", "co_await", "join", "future(async)", "fn->future", "future-coroutine", "operator()", "moved-then-started", "never-started", "start(promise)-future-owned-by-argument", "join-inside-coroutine", "start-inside-coroutine"};
 enum Compl { SYNC_VALUE = 0, SYNC_THROW, SUSP_VALUE, SUSP_THROW, NCOMPL };
 static const char *compl_names[] = {"sync-value", "sync-throw", "suspend-value", "suspend-throw"};
 
@@ -113,6 +113,30 @@ static cocls::async<T> level(Ctx &c, int k, Guard arg) {
             co_return g_ref_obj;
         else
             co_return V<T>::make();
+    }
+}
+// the bound future lives in an object that only the coroutine's own by-value argument keeps alive (shared_ptr<Op> self idiom)
+struct Obs;
+static Obs *g_self_obs;          // what the operation object found in its own future when it died
+static bool g_self_died_pending;
+template <typename T>
+struct SelfOp {
+    cocls::future<T> fut;
+    ~SelfOp();
+};
+template <typename T>
+static cocls::async<T> level_self(Ctx &c, int k, std::shared_ptr<SelfOp<T>> self, Guard arg) {
+    (void)self;
+    (void)arg;
+    if constexpr (std::is_void_v<T>) {
+        co_await level<T>(c, k, Guard());
+        co_return;
+    } else if constexpr (std::is_reference_v<T>) {
+        T v = co_await level<T>(c, k, Guard());
+        co_return v;
+    } else {
+        T v = std::move(co_await level<T>(c, k, Guard()));
+        co_return std::move(v);
     }
 }
 // a coroutine whose declared return type is the future itself
@@ -174,6 +198,51 @@ static Obs observe(cocls::future<T> &f) {
         o.kind = 4;
     }
     return o;
+}
+template <typename T>
+SelfOp<T>::~SelfOp() {
+    // the object goes away together with the coroutine frame (its last owner is an argument of the coroutine): by then
+    // the result must have been delivered into it
+    if (fut.pending()) {
+        g_self_died_pending = true;
+        fut.get_promise();  // unreachable in a correct run; keeps ~future from asserting on the way out
+        return;
+    }
+    if (g_self_obs) *g_self_obs = observe(fut);
+}
+// start modes used from inside a running coroutine with a consumer that does not suspend: legal when the child completes
+// synchronously (the future is ready when start() returns)
+template <typename T>
+static cocls::async<void> outer_join_inside(Ctx &c, int depth, Obs &o, bool use_start) {
+    try {
+        if (use_start) {
+            cocls::future<T> f = level<T>(c, depth, Guard()).start();
+            if (!f.ready()) {
+                o.kind = 8;  // not ready although the child ran to completion inside start()
+                co_return;
+            }
+            if constexpr (std::is_void_v<T>) {
+                f.value();
+                o.kind = 1;
+            } else {
+                o.kind = 1;
+                o.val = V<T>::read(f.value());
+            }
+        } else if constexpr (std::is_void_v<T>) {
+            level<T>(c, depth, Guard()).join();
+            o.kind = 1;
+        } else if constexpr (std::is_reference_v<T>) {
+            int v = level<T>(c, depth, Guard()).join();
+            o.kind = 1;
+            o.val = v;
+        } else {
+            T v = level<T>(c, depth, Guard()).join();
+            o.kind = 1;
+            o.val = V<T>::read(v);
+        }
+    } catch (const TestError &) {
+        o.kind = 2;
+    }
 }
 // outer coroutines used by the "from a coroutine" start modes
 template <typename T>
@@ -269,6 +338,20 @@ static void run_cell(seqx::Runner &R, int start, int comp, int depth) {
                     got.kind = 2;
                 }
                 break;
+            case START_PROMISE_SELF: {
+                auto op = std::make_shared<SelfOp<T>>();
+                cocls::promise<T> p = op->fut.get_promise();
+                g_self_obs = &got;
+                g_self_died_pending = false;
+                have_party = true;
+                start_ret = level_self<T>(c, depth, std::move(op), Guard()).start(p);
+                break;  // the caller keeps no reference: the coroutine's argument is the last owner
+            }
+            case JOIN_IN_CORO:
+            case START_IN_CORO:
+                outer_join_inside<T>(c, depth, got, start == START_IN_CORO).detach();
+                have_party = true;
+                break;
             case FUTURE_CTOR: f.reset(new cocls::future<T>(level<T>(c, depth, Guard()))); break;
             case FN_RETURNS_FUTURE: f.reset(new cocls::future<T>(fn_returning_future<T>(c, depth))); break;
             case FUTURE_CORO: f.reset(new cocls::future<T>(level_future<T>(c, depth, Guard()))); break;
@@ -295,6 +378,10 @@ static void run_cell(seqx::Runner &R, int start, int comp, int depth) {
             R.step();
         } else
             gate_p();
+        if (start == START_PROMISE_SELF) {
+            g_self_obs = nullptr;
+            if (g_self_died_pending) R.fail("async/bound-future-destroyed-pending", "the operation object owned by the coroutine's argument died while its bound future was still pending");
+        }
         int expect_kind = (comp == SYNC_VALUE || comp == SUSP_VALUE) ? 1 : 2;
         long expect_val = (expect_kind == 1 && !std::is_void_v<T>) ? 42 : 0;
         for (int k = 1; k <= 3; k++) {
@@ -335,7 +422,7 @@ static void cells(seqx::Runner &R, int only_start = -1, int only_comp = -1, int 
             for (int depth = 1; depth <= 3; depth++) {
                 if (only_start >= 0 && (st != only_start || cm != only_comp || depth != only_depth)) continue;
                 // join() blocks the thread: with a suspended chain only another thread can complete it (vrt cell)
-                if (st == JOIN && (cm == SUSP_VALUE || cm == SUSP_THROW)) continue;
+                if ((st == JOIN || st == JOIN_IN_CORO || st == START_IN_CORO) && (cm == SUSP_VALUE || cm == SUSP_THROW)) continue;
                 if (R.stop()) return;
                 if (R.next_case()) run_cell<T>(R, st, cm, depth);
             }
